@@ -3,6 +3,7 @@
 package proj
 
 import (
+	"encoding/json"
 	"context"
 	"fmt"
 	"reflect"
@@ -174,7 +175,8 @@ func (s *Server) DoAll(ctx context.Context, e *univ.Exec, query, opName string, 
 		if resp == nil {
 			break
 		}
-		out = append(out, &Response{Data: resp.Data, Errors: resp.Errors, Recovers: int(recovers.Load()), HasNext: resp.HasNext, Label: resp.Label, Path: resp.Path})
+		// a subscription's response function reuses one buffer for every event: keep a copy
+		out = append(out, &Response{Data: append(json.RawMessage(nil), resp.Data...), Errors: resp.Errors, Recovers: int(recovers.Load()), HasNext: resp.HasNext, Label: resp.Label, Path: resp.Path})
 	}
 	return out, false
 }
